@@ -10,6 +10,7 @@ import (
 	"os"
 	"os/exec"
 	"path/filepath"
+	"strings"
 
 	"verifharness/jsonread"
 	"verifharness/lib"
@@ -115,6 +116,52 @@ func (e *engine) checkCliLine(worker int, raw []byte) error {
 			Sig: map[string]string{"fam": "cli", "kind": kind, "lab": "", "lastop": ""},
 			Case: map[string]interface{}{"fam": "cli", "files": ln.Files, "stdin": string(docText), "patch_texts": texts(patchTexts),
 				"spec_exit": ln.Exit, "exit": code, "stdout": so.String(), "stderr": se.String(), "line": ln}}
+	}
+	// the same command line with a LARGE document on standard input (1.5 MiB: an extra member holding a long string), judged by
+	// the library's own fold on that document: nothing of the command may depend on the size of its input
+	if len(ln.Files) <= 1 && !bytes.Contains(ln.Stdin, []byte(`"malformed"`)) {
+		if sv, perr := jsonread.FromWire(ln.Stdin); perr == nil && sv.T == "obj" && !sv.HasDupKeys() {
+			big := sv.Clone()
+			big.M = append(big.M, jsonread.M("zzpad", jsonread.Str(strings.Repeat("x", 3<<19))))
+			bigText := jsonread.Canonical.Render(big)
+			c2 := exec.Command(cli, args...)
+			c2.Stdin = bytes.NewReader(bigText)
+			var so2, se2 bytes.Buffer
+			c2.Stdout, c2.Stderr = &so2, &se2
+			code2 := 0
+			if rerr2 := c2.Run(); rerr2 != nil {
+				if ee, ok := rerr2.(*exec.ExitError); ok {
+					code2 = ee.ExitCode()
+				} else {
+					return fmt.Errorf("cannot run %s: %v", cli, rerr2)
+				}
+			}
+			e.rep.Count("executions", 1)
+			e.rep.Label("Cli_large_stdin")
+			ok2, out2 := true, bigText
+			for _, pt := range patchTexts {
+				o, aerr, derr := lib.ApplyDefaults(out2, pt, 0, true)
+				if aerr != nil || derr != nil {
+					ok2 = false
+					break
+				}
+				out2 = o
+			}
+			allPatches := len(patchTexts) == len(ln.Files) // every file is a readable patch document
+			v2 := func(kind, detail string) *lib.Violation {
+				return &lib.Violation{Property: e.prop, Kind: kind, Detail: detail,
+					Sig: map[string]string{"fam": "cli", "kind": kind, "lab": "", "lastop": ""},
+					Case: map[string]interface{}{"fam": "cli", "files": ln.Files, "stdin": "<the stdin document with an extra member \"zzpad\" of 1.5 MiB>", "patch_texts": texts(patchTexts),
+						"exit": code2, "stdout_len": so2.Len(), "stderr": se2.String(), "line": ln}}
+			}
+			if allPatches && (code2 == 0) != ok2 {
+				e.rep.Report(v2("exit", fmt.Sprintf("large document on standard input: exit status %d, but applying the patches with the library %s", code2, map[bool]string{true: "succeeds", false: "fails"}[ok2])))
+			} else if allPatches && code2 == 0 && !bytes.Equal(out2, so2.Bytes()) {
+				e.rep.Report(v2("bytes", "large document on standard input: standard output differs from the library's own result"))
+			} else if code2 != 0 && so2.Len() != 0 {
+				e.rep.Report(v2("partial-output", "large document on standard input: the command failed but wrote to standard output"))
+			}
+		}
 	}
 	// the library's own fold, in process: decode each file, apply one after the other
 	foldOK, foldOut := true, docText
